@@ -107,11 +107,15 @@ func VrfC13Ingest() {
 	dgs := New(vrfClient(cl, ipfs), opts, nil)
 	ctx := context.Background()
 	sizes := make([]int, k)
+	ids := make([]int, k)
 	accepted := 0
 	failed := false
 	for b := 0; b < k && !failed; b++ {
 		sizes[b] = vrf_choice("block_size", 4)
-		err := dgs.Add(ctx, &vrfNode{c: vrfBlockCid(b), data: make([]byte, sizes[b])})
+		// a block may be one that was handed in before (the same content twice
+		// in the tree), also after the shard that took it was flushed
+		ids[b] = vrf_choice("block_id", b+1)
+		err := dgs.Add(ctx, &vrfNode{c: vrfBlockCid(ids[b]), data: make([]byte, sizes[b])})
 		if err != nil {
 			failed = true
 			break
@@ -144,7 +148,7 @@ func VrfC13Ingest() {
 	}
 	_ = links
 	if !failed {
-		root := vrfBlockCid(accepted - 1)
+		root := vrfBlockCid(ids[accepted-1])
 		res, err := dgs.Finalize(ctx, root)
 		if err != nil {
 			// a failed step pins neither the cluster-DAG after it nor the meta entry
@@ -170,10 +174,11 @@ func VrfC13Ingest() {
 			vrf_assert(meta.Reference != nil && meta.Reference.Equals(cdag.Cid), "C13.finalize.meta-references-clusterdag")
 		}
 		// every accepted block was delivered exactly once (plus shard and cluster-DAG nodes)
+		// (a block handed in twice is still delivered, and linked, once)
 		for b := 0; b < accepted; b++ {
 			cnt := 0
 			for _, c := range ipfs.blocks {
-				if c.Equals(vrfBlockCid(b)) {
+				if c.Equals(vrfBlockCid(ids[b])) {
 					cnt++
 				}
 			}
